@@ -45,3 +45,6 @@ package dynamiccache
 //@   loop 1 invariant forall g GVK :: (g in c.informerReferences) ==> len(c.informerReferences[g]) > 0 && c.informerReferences[g] != c.informerReferences
 //@   loop 1 invariant forall g GVK :: (g in c.informerReferences) ==> attached(g)
 //@   loop 1 invariant forall g1 GVK, g2 GVK :: (g1 in c.informerReferences) && (g2 in c.informerReferences) && g1 != g2 ==> c.informerReferences[g1] != c.informerReferences[g2]
+//@   loop 1 invariant forall g GVK :: (g in c.informerReferences) ==> loopentry(g in c.informerReferences)
+//@   loop 1 invariant forall g GVK :: visited(g) && (g in c.informerReferences) ==> !(ownerRef in c.informerReferences[g])
+//@   ensures [C12] result == nil ==> (forall g GVK :: (g in c.informerReferences) ==> !(ownerRef in c.informerReferences[g]))
